@@ -31,6 +31,7 @@ import replay
 from common import src_line
 
 LEVEL = 'model_checking'
+TASK_CAP_S = 900      # wall-clock cap per self-composition task; exceeding it is inconclusive, never a verdict
 
 
 def lex_lt(a, b):
@@ -210,7 +211,9 @@ def native_ambiguous():
     """projects in which one file has two imports with the same simple name: validate repeatedly on fresh parsers"""
     out = {}
     for name, files in (('type', {'a.aidl': 'package p; import q.X; import r.X; interface A { void f(in X b); }', 'b1.aidl': 'package q; parcelable X { int x; }', 'b2.aidl': 'package r; interface X { void g(); }'}),
-                        ('declared', {'a.aidl': 'package p; import q.X; import r.X; parcelable X; interface A { void f(in X b); }'})):
+                        ('declared', {'a.aidl': 'package p; import q.X; import r.X; parcelable X; interface A { void f(in X b); }'}),
+                        ('unimported', {'a.aidl': 'package p; interface A { void f(in X b, in zz.Y y); }', 'b1.aidl': 'package q; parcelable X { int x; }', 'b2.aidl': 'package r; interface X { void g(); }',
+                                        'b3.aidl': 'package zz; parcelable Y { int x; }', 'b4.aidl': 'package p; enum X { A }'})):
         out[name] = replay.determinism(files, 60).get('distinct', 0)
     return out
 
@@ -224,6 +227,8 @@ def _choice_task(job):
     import nonint
     kind, cfg = job
     t0 = time.time()
+    import tmir
+    tmir.DEADLINE[0] = t0 + TASK_CAP_S
     try:
         if kind == 'resolve':
             r = nonint.choice_pair_resolve(_S, *cfg)
@@ -323,7 +328,7 @@ def hash_part(run):
         elif viol:
             if nat is None:
                 nat = native_ambiguous()
-            rep = {'resolve': nat['type'] > 1, 'declared': nat['declared'] > 1, 'ranges': native_ties().get('distinct', 1) > 1}[kind]
+            rep = {'resolve': nat['type'] > 1 or nat['unimported'] > 1, 'declared': nat['declared'] > 1, 'ranges': native_ties().get('distinct', 1) > 1}[kind]
             key = {'resolve': 'hash-order-choice:resolve_type', 'declared': 'hash-order-choice:check_declared_parcelables', 'ranges': 'hash-ordered-tie'}[kind]
             run.violated(title, 'T', key, {'solver': viol[:2], 'native_distinct_outputs': nat}, rep, queries=nq, solver_s=secs, detail=viol[0]['what'], bound='unbounded strings')
         else:
